@@ -122,6 +122,49 @@ class Node:
         self._raiser(self)
 
 
+class USlots(Exception):          # slotted: instances have no __dict__
+    __slots__ = ('code',)
+
+    def __init__(self, code):
+        super().__init__(code)
+        self.code = code
+
+
+class _EqBomb:
+    def __eq__(self, other):
+        raise AttributeError('no comparison')
+
+    __hash__ = None
+
+
+class UArgEq(Exception):          # args hold an unhashable object whose __eq__ raises
+    pass
+
+
+class UReg(Exception):            # mutable class-level state: every instance ever made is registered
+    made = []
+
+    def __init__(self, *a):
+        super().__init__(*a)
+        type(self).made.append(self)
+        del type(self).made[:-3]
+
+
+class FalsyBox:                   # holds data, but is falsy
+    def __init__(self, data):
+        self.data = data
+
+    def __bool__(self):
+        return False
+
+    def __len__(self):
+        return 0
+
+
+import collections
+NT = collections.namedtuple('NT', 'a b')
+
+
 class UFalsy(Exception):          # instances are falsy
     def __len__(self):
         return 0
@@ -174,6 +217,7 @@ CATALOGUE = {
     'GSub': lambda: GSub('x'), 'GKeep': lambda: GKeep(1, 2), 'GInit2': lambda: GInit2(1, 2),
     'GDbl': lambda: GDbl(3), 'GVal': lambda: GVal('v'), 'GCopy': lambda: GCopy(1, 2),
     'BKbd': lambda: KeyboardInterrupt(), 'BUser': lambda: BUser(1),
+    'USlots': lambda: USlots(0), 'UArgEq': lambda: UArgEq(_EqBomb(), ''), 'UReg': lambda: UReg((), 0),
     'UEqRaise': lambda: UEqRaise(7), 'UEqAll': lambda: UEqAll('q'),
     'StopIter': lambda: StopIteration(3), 'UFalsy': lambda: UFalsy('f'), 'GFalsy': lambda: GFalsy('g'),
     'SubTypeMatch': lambda: SubTypeMatch(int, str), 'SubMatch': lambda: SubMatch('fmt {0}', 1),
@@ -223,14 +267,25 @@ def measure(e, cid, kind):
 
 # ---- sentinels and probes -------------------------------------------------------------------
 class Sent:
+    """sentinel value (defaults, alternatives).  Defaults of constructs are falsy-but-meaningful
+    objects, alternatives are falsy at odd levels: truthiness must never decide anything"""
     def __init__(self, kind, lvl):
         self.kind, self.lvl = kind, lvl
+        self.truth = not (kind == 'dflt' or (kind == 'alt' and lvl % 2 == 1))
+
+    def __bool__(self):
+        return self.truth
+
+    def __eq__(self, other):          # hostile: equal to everything (identity is what counts)
+        return True
+
+    __hash__ = object.__hash__
 
     def __repr__(self):
         return '<%s@%d>' % (self.kind, self.lvl)
 
 
-_never = Sent('never', -1)
+_never = object()       # compares unequal to every target
 TOPDEFAULT = Sent('topdflt', 0)
 
 
@@ -398,9 +453,11 @@ class World:
                 top = self.n - 1
                 spec = self.P(top, spec, self.log)
             elif inner == 'geniter':
-                k = 1 if ctxs[-1]['v'] == 'k1' else 2
-                h = how % 3
-                if h == 0:
+                k = {'k1': 1, 'k2': 2, 'k3': 3}[ctxs[-1]['v']]
+                h = how % 4
+                if h == 3:
+                    spec, target = Iter().all(), raising_gen(k, raiser)
+                elif h == 0:
                     spec, target = [T], raising_gen(k, raiser)
                 elif h == 1:
                     spec, target = [ident], RaisingIter(k, raiser)
@@ -502,14 +559,33 @@ class World:
             out['default'] = None
         elif d != 'absent':
             # the default object the caller passes; "the default object itself" must come back
-            self.topdefault = {'obj': lambda: Sent('topdflt', 0), 'list': lambda: [1, 2],
-                               'dictT': lambda: {'k': T['missing'], 'l': [3]}, 't': lambda: T}[d]()
+            if getattr(self, '_topkind', None) != d:      # (the same object again when the world is re-run)
+                self._topkind = d
+                self.topdefault = {'obj': lambda: Sent('topdflt', 0), 'list': lambda: [1, 2],
+                                   'dictT': lambda: {'k': T['missing'], 'l': [3]}, 't': lambda: T,
+                                   'ntup': lambda: NT(T['missing'], [1]), 'zero': lambda: 0,
+                                   'elist': lambda: [], 'fobj': lambda: FalsyBox([T])}[d]()
             out['default'] = self.topdefault
         if kw['skip'] != 'absent':
             out['skip_exc'] = self.skipcls(kw['skip'])
         if kw['debug']:
             out['glom_debug'] = True
         return out
+
+    def rerun(self, kw, prev):
+        """evaluate the very same spec objects (same exception instance, same default object) again,
+        after mutating what the first evaluation returned"""
+        st, obj = prev
+        if st == 'value' and obj is not self.target:     # (never the caller's own target)
+            try:
+                if isinstance(obj, list):
+                    obj.append('mutated')
+                elif isinstance(obj, dict):
+                    obj['mutated'] = 1
+            except Exception:
+                pass
+        del self.log[:]
+        return self.run(kw)
 
     def run(self, kw):
         if self.prelude is not None:
